@@ -62,6 +62,11 @@ fn frames_std() -> Vec<usize> {
 fn configs(frames: &[usize], classings: &[ClassingSpec], inits: &[InitMode]) -> Vec<Config> {
     let mut out = vec![];
     for &f in frames {
+        // 16K geometry: trees are 4x larger; allocators above 2 trees are left to the
+        // other geometries (state size and per-frame oracles grow with the frame count)
+        if llfree::HUGE_ORDER > 9 && f > 2 * TREE_FRAMES + HUGE_FRAMES {
+            continue;
+        }
         for c in classings {
             for &i in inits {
                 out.push(Config::new(f, c.clone(), i));
